@@ -241,6 +241,17 @@ class ExprGen:
       if rng.random() < 0.22: b = self.int_operand(w)
       else: b, _ = self.expr(w, depth - 1)
       return f'({a} {op} {b})', 'cmpd'
+    if k < 0.385 and depth >= 2:
+      # a binary operation as an operand of the SAME operator: right-nested for the non-associative -, >>, << (the grouping
+      # matters: a - (b - c) != (a - b) - c), left-nested and associative controls (seeded C03-8)
+      op = rng.choice(['-', '-', '>>', '<<', '-', '+', '^'])
+      a, _ = self.nc(w, depth - 2)
+      b, _ = self.nc(w, depth - 2)
+      if op in ('>>', '<<') and w > 1: c = rng.choice([str(rng.randint(1, min(3, w - 1))), self.nc(w, 0)[0]])
+      else: c = self.nc(w, depth - 2)[0] if rng.random() < 0.7 else self.int_operand(w)
+      self.scope.features.add('same-op-nested-' + {'-': 'sub', '>>': 'shr', '<<': 'shl', '+': 'add', '^': 'xor'}[op]) if hasattr(self.scope, 'features') else None
+      if rng.random() < 0.75: return f'({a} {op} ({b} {op} {c}))', 'cmpd'
+      return f'(({a} {op} {b}) {op} {c})', 'cmpd'
     if k < 0.42:
       op = rng.choice(['<<', '>>'])
       a, _ = self.nc(w, depth - 1)
@@ -1010,6 +1021,9 @@ F33 = 'F33-folded-constant-recomputed-narrow'
 F34 = 'F34-loop-variable-named-like-global'
 D1 = 'D1-descending-loop-variable-as-value'
 D2 = 'D2-same-child-port-to-port-connection'
+D3 = 'D3-same-operator-nesting'
+T1 = 'T1-select-of-computed-value'
+T2 = 'T2-single-field-struct-instance-bare'
 F38 = 'F38-bool-constant-attribute'
 F39 = 'F39-if-expression-loop-bound'
 F35 = 'F35-chained-assignment-sole-body-without-begin-end'
@@ -1022,6 +1036,21 @@ FINDING_STREAMS = {
   F35: (('verilog', 'yosys'), ('output-mismatch', 'multi-driver', 'undriven')),
   F25: (('yosys',), ('syntax-invalid', 'undriven', 'output-mismatch', 'multi-driver')),
 }
+# labelled streams of confirmed defects that are neither registered as known findings nor repaired yet: a check runs such a
+# stream only once known_findings.json has an entry of its property whose match.finding is the stream id
+PENDING_STREAMS = {
+  T1: (('verilog', 'yosys'), ('syntax-invalid',)),
+  T2: (('verilog', 'yosys'), ('output-mismatch',)),
+}
+
+def registered(fid, pid):
+  import json, os
+  try:
+    d = json.load(open(os.path.join(os.path.dirname(os.path.dirname(os.path.dirname(os.path.abspath(__file__)))), 'known_findings.json')))
+    return any(f.get('property') == pid and (f.get('match') or {}).get('finding') == fid for f in d.get('findings', []))
+  except Exception:
+    return False
+
 FIXED_STREAMS = {
   # shapes of repaired defects: ordinary clean cases now
   F15: ('yosys', 'verilog'), F16: ('verilog', 'yosys'), F16B: ('verilog', 'yosys'), F18: ('verilog', 'yosys'), F19: ('yosys', 'verilog'),
@@ -1031,6 +1060,7 @@ FIXED_STREAMS = {
   F31: ('verilog', 'yosys'), F32: ('verilog', 'yosys'), F33: ('verilog', 'yosys'), F34: ('verilog', 'yosys'),
   F38: ('verilog', 'yosys'), F39: ('verilog', 'yosys'),
   D2: ('verilog', 'yosys'),   # directed: the parent connects two ports of the SAME child (rejected on the current tree: counted; seeded C03-7); control: via a parent wire
+  D3: ('verilog', 'yosys'),   # directed: right-nested chains of -, >>, <<, % with operand values for which the groupings differ (seeded C03-8)
   D1: ('verilog',),       # directed (not a repaired defect): descending loops whose variable is used as a VALUE of its own width (seeded C03-2); yosys rejects negative steps
 }
 
@@ -1203,8 +1233,14 @@ def gen_finding(rng, be, fid):
   elif fid == F12:
     n = rng.choice([4, 8])
     W = (n - 1).bit_length() + rng.choice([1, 2])
-    variant = rng.choice(['tmpvar', 'cast-of-sum'])
-    if variant == 'tmpvar':
+    variant = rng.choice(['tmpvar', 'cast-of-sum', 'shift-amount'])
+    if variant == 'shift-amount':
+      # arithmetic on the loop variable in a SELF-DETERMINED position (shift amount): `in_ >> ( 3'(i) + 3'd1 )` is a shift by 0 at
+      # i = n-1, PyMTL shifts by the Python int n
+      W = 2 * n
+      L += ['class Top( Component ):', '  def construct( s ):', f'    s.a = InPort( Bits{W} )', f'    s.o = OutPort( Bits{W} )',
+            '    @update', '    def up():', '      s.o @= 0', f'      for i in range({n}):', f"        s.o @= s.o ^ ( s.a {rng.choice(['>>', '<<'])} (i + 1) )"]
+    elif variant == 'tmpvar':
       L += ['class Top( Component ):', '  def construct( s ):', f'    s.a = InPort( Bits{W} )', f'    s.o = OutPort( Bits{W} )',
             '    @update', '    def up():', '      s.o @= 0', f'      for i in range({n}):', '        t = i + 1', '        if s.a == t:', f'          s.o @= {rng.randint(1, (1 << W) - 1)}']
     else:
@@ -1212,6 +1248,7 @@ def gen_finding(rng, be, fid):
       L += ['class Top( Component ):', '  def construct( s ):', f'    s.a = InPort( Bits{W} )', f'    s.o = OutPort( Bits{W} )',
             '    @update', '    def up():', '      s.o @= 0', f'      for i in range({n}):', f'        if s.a == Bits{W}( i + 1 ):', f'          s.o @= {rng.randint(1, (1 << W) - 1)}']
     fixed_cycles = [{'.a': 0, '.reset': 0}, {'.a': n, '.reset': 0}, {'.a': rng.getrandbits(W), '.reset': 0}]      # t wraps to 0 at i = n-1
+    if variant == 'shift-amount': fixed_cycles = [{'.a': (1 << (W - 1)) | 1, '.reset': 0}, {'.a': rng.getrandbits(W) | 1 | (1 << (W - 1)), '.reset': 0}]
   elif fid == F25:
     variant = rng.choice(['top', 'subcomponent'])
     n = rng.choice([2, 3])
@@ -1230,6 +1267,37 @@ def gen_finding(rng, be, fid):
     lo = rng.randint(0, W - 2); hi = rng.randint(lo + 1, W)
     L += ['class Top( Component ):', '  def construct( s ):', f'    s.a = InPort( Bits{W} )', f'    s.b = InPort( Bits{W} )', f'    s.r = OutPort( Bits{W} )',
           '    @update_ff', '    def ff():', f"      t = s.a {rng.choice('|^+')} s.b", f'      t[{lo}:{hi}] = s.b[0:{hi - lo}]', '      s.r <<= t']
+  elif fid == D3:
+    W = rng.choice([4, 8])
+    ops = ['-', '>>', '<<', '%', '-', '+', '^']
+    L += ['class Top( Component ):', '  def construct( s ):'] + [f'    s.{x} = InPort( Bits{W} )' for x in 'abc'] + [f'    s.o{k} = OutPort( Bits{W} )' for k in range(len(ops) + 1)]
+    body = []
+    for k, op in enumerate(ops):
+      right = k < 4 or rng.random() < 0.5
+      body.append(f'      s.o{k} @= s.a {op} ( s.b {op} s.c )' if right else f'      s.o{k} @= ( s.a {op} s.b ) {op} s.c')
+    L += ['    @update', '    def up():'] + body + ['    @update_ff', '    def ff():', f"      s.o{len(ops)} <<= s.o{len(ops)} {rng.choice(['-', '>>'])} ( s.a {'-' if body else ''} ( s.b - s.c ) )".replace(">> ( s.a - (", ">> ( s.a >> (").replace('( s.b - s.c ) )', '( s.b - s.c ) )')]
+    # operand values: c >= 2, b = c*q + r with 0 < r < c (so that b % c != 0: no division by zero anywhere), small shift amounts
+    fixed_cycles = []
+    for _ in range(5):
+      c_ = rng.randint(2, 3); q_ = rng.randint(1, 2); r_ = rng.randint(1, c_ - 1)
+      fixed_cycles.append({'.a': rng.getrandbits(W) | (1 << (W - 1)) | 1, '.b': c_ * q_ + r_, '.c': c_, '.reset': 0})
+  elif fid == T1:
+    variant = rng.choice(['cast', 'trunc'] + (['concat-index'] if be == 'yosys' else []))
+    W = rng.choice([4, 8])
+    e = rng.choice(['s.a if s.c else s.b', 's.a + s.b', 's.a & s.b'])
+    k = rng.randint(0, W - 1); lo = rng.randint(0, W - 2); hi = rng.randint(lo + 1, W)
+    L += ['class Top( Component ):', '  def construct( s ):', f'    s.a = InPort( Bits{W} )', f'    s.b = InPort( Bits{W} )', '    s.c = InPort( Bits1 )', '    s.o1 = OutPort( Bits1 )',
+          f'    s.o2 = OutPort( Bits{hi - lo} )', '    @update', '    def up():']
+    if variant == 'cast': L += [f'      s.o1 @= Bits{W}( {e} )[{k}]', f'      s.o2 @= Bits{W}( {e} )[{lo}:{hi}]']
+    elif variant == 'trunc': L += [f'      s.o1 @= trunc( concat( s.a, s.b ) + 1, {W} )[{k}]', f'      s.o2 @= trunc( {e}, {W} )[{lo}:{hi}]']
+    else: L += [f'      s.o1 @= concat( s.a, s.b )[{k}]', f'      s.o2 @= zext( s.a, {W + 4} )[{lo}:{hi}]']
+  elif fid == T2:
+    W = rng.choice([4, 8])
+    op = rng.choice('&|^')
+    L[1:1] = ['@bitstruct', 'class Foo:', f'  v: Bits{W}', '']
+    L += ['class Top( Component ):', '  def construct( s ):', f'    s.a = InPort( Bits{W} )', f'    s.b = InPort( Bits{W} )', '    s.f = InPort( Foo )', '    s.o1 = OutPort( Bits1 )',
+          '    s.o2 = OutPort( Foo )', '    s.o3 = OutPort( Bits1 )', '    @update', '    def up():',
+          f'      s.o1 @= s.f == Foo( s.a {op} s.b )', f"      s.o2 @= Foo( s.a {rng.choice('&|^+')} s.b )", f'      s.o3 @= Foo( s.a {op} s.b ) != s.f']
   elif fid == D2:
     W = rng.choice([2, 4, 8])
     variant = rng.choice(['loop', 'via-wire', 'loop'])        # (input-to-input chaining inside one child is an elaboration error in PyMTL)
@@ -1305,7 +1373,12 @@ def gen_finding(rng, be, fid):
     return {'src': '\n'.join(L) + '\n', 'label': fid + ':' + variant, 'finding': fid, 'variant': variant, 'expect': FINDING_STREAMS[fid][1],
             'features': ['finding-stream'], 'cycles': fixed_cycles}
   if fid in FIXED_STREAMS:
-    return {'src': '\n'.join(L) + '\n', 'label': 'fixed:' + fid + (':' + variant if variant else ''), 'features': ['fixed-defect-shape']}
+    d = {'src': '\n'.join(L) + '\n', 'label': 'fixed:' + fid + (':' + variant if variant else ''), 'features': ['fixed-defect-shape']}
+    if fid == D3: d['cycles'] = fixed_cycles
+    return d
+  if fid in PENDING_STREAMS:
+    return {'src': '\n'.join(L) + '\n', 'label': fid + (':' + variant if variant else ''), 'finding': fid, 'variant': variant,
+            'expect': PENDING_STREAMS[fid][1], 'features': ['finding-stream']}
   d = {'src': '\n'.join(L) + '\n', 'label': fid + (':' + variant if variant else ''), 'finding': fid, 'variant': variant,
        'expect': FINDING_STREAMS[fid][1], 'features': ['finding-stream']}
   if variant == 'const-array-field': d['expect'] = ('multi-driver', 'undriven'); d['scope'] = ('cfg',)
